@@ -572,3 +572,85 @@ Theorem C03_aw_quit_never_over_newer : forall now aw all lk (pre : list gbuf) (x
 Proof. exact quit_scan_newer_any. Qed.
 Print Assumptions C03_aw_quit_never_over_newer.
 End C03_autowrite_loop.
+
+(* ------------------------------------------------------------------------------------------ *)
+(* ec_write ON THE C TEXT (tools/c2clite.d/99zzzzz_ecwrite.list; coq/TrEcWrite.v, TrEcWriteCmd.v, TrEcWriteThm.v).  The translated
+   ec_write of /repo/ex.c, run by CLiteExt.callx on a memory that holds bufs[0] (path, lb, mtime), the buffer's path string, its struct
+   lbuf, the command / argument / address strings, for EVERY oracle for ex_pathexpand, lbuf_cp, ex_print, cmd_pipe, lbuf_save, ex_show,
+   snprintf, reg_put, mtime and every list K of blocks the oracle calls leave alone, follows TrEcWriteCmd.ecw_run -- the decision
+   structure written out:
+     path = no argument ? bufs[0].path : ex_pathexpand(arg);  `x` on a buffer lbuf_modified reports clean: 0, nothing else;
+     ex_region fails or path == NULL: 1;  no address: the whole buffer;
+     a pipe ("!cmd"; "!" alone: 1): lbuf_cp, ex_print, cmd_pipe, free -- no store into bufs[0];
+     a file: lbuf_save(xb, beg, end, path, force, ts) with force = the command has a `!` and ts = bufs[0].mtime exactly when path is the
+       buffer's own path (else 0); a message: ex_show(message), return 1 AND NOTHING ELSE (no saved mark, no mtime: the buffer stays as
+       modified as it was);  NULL: the tail -- snprintf, ex_show; the name is adopted exactly by a buffer without a name for a target
+       that is not a pipe; lbuf_saved(xb, 0) exactly for the whole buffer written to the own path, lbuf_unsaved(xb) for a part of it,
+       neither for another path; mtime(path) asked and stored exactly for the own path; return 0.
+   A rewrite that marks the buffer saved before it looked at lbuf_save's answer, drops the force / mtime argument, or adopts a pipe as
+   the name changes the translated term and breaks these statements. *)
+From NV Require CLite CLiteProps GenCFuncs CLiteTac CLiteExt TrLbufBase TrLbuf TrEcWrite TrEcWriteCmd TrEcWriteThm UndoDefs.
+Section C03_translated_ec_write.
+Import CLite CLiteProps GenCFuncs CLiteTac CLiteExt TrLbufBase TrLbuf TrEcWrite TrEcWriteCmd TrEcWriteThm.
+Local Open Scope Z_scope.
+
+Theorem C03_tr_ec_write : forall ext d fuel m0 gb pb p bl blk lb ts n cb cmd ab arg lcb loc vtxt K,
+  nonul p -> nonul cmd -> i32 n ->
+  buf0 m0 gb (VPtr pb 0) bl ts -> str_at m0 pb p -> lbuf_rep m0 bl blk lb -> nth_error blk L_ln_n = Some (VInt n) ->
+  str_at m0 cb cmd -> str_at m0 ab arg -> str_at m0 lcb loc -> nonul arg -> nonul loc ->
+  lbuf_ints lb -> UndoDefs.useq lb < 2147483646 -> Z.of_nat (length p) <= 2147483647 ->
+  (forall x, In x [G_bufs; pb; bl; cb; lcb; S (length m0); S (S (length m0))] -> In x K) ->
+  (UndoDefs.hist lb <> [] -> forall bh, hist_ptr blk bh -> In bh K) ->
+  NoDup [G_bufs; pb; bl] -> cb <> bl -> lcb <> bl -> (UndoDefs.hist lb <> [] -> forall bh, hist_ptr blk bh -> ~ In bh [G_bufs; pb]) ->
+  ecw_run ext d fuel m0 gb pb p bl blk lb ts n cmd ab arg lcb loc K
+    (fun r mf => callx ext cprog fuel (S (S (S (S d)))) F_ec_write [VPtr lcb 0; VPtr cb 0; VPtr ab 0; vtxt] m0 = Ok (VInt r, mf)).
+Proof. exact tr_ec_write. Qed.
+Print Assumptions C03_tr_ec_write.
+
+(* the arguments of the one call of lbuf_save: the overwrite guards of C03 get the force flag of the command and the buffer's stored
+   mtime -- for the own path only *)
+Theorem C03_tr_save_args : forall bl ts qb path cmd b e p,
+  save_args bl ts qb path cmd b e p =
+  [VPtr bl 0; VInt b; VInt e; VPtr qb 0; VInt (if has_byte 33 cmd then 1 else 0); VInt (if same_str p path then wrap I64 ts else 0)].
+Proof. exact save_args_spec. Qed.
+Print Assumptions C03_tr_save_args.
+
+(* failures surface and stay dirty: a message from lbuf_save goes to ex_show, ec_write returns 1, and the memory is what ex_show left *)
+Theorem C03_tr_write_save_fails : forall ext m0 gb pb p bl ts n cmd K (Q : Z -> mem -> Prop) qb path blk1 lb1 b e m4 r m5 u m6,
+  nthb path 0 <> 33%N -> write_run ext m0 gb pb p bl ts n cmd K Q qb path blk1 lb1 b e m4 ->
+  ext X_lbuf_save (save_args bl ts qb path cmd b e p) m4 = Ok (r, m5) -> ptr_val r -> same_on K m4 m5 -> is_null r = false ->
+  ext X_ex_show [r] m5 = Ok (u, m6) -> Q 1 m6.
+Proof. exact write_run_save_fails. Qed.
+Print Assumptions C03_tr_write_save_fails.
+
+(* a write to another path (or to a pipe): nothing is stored behind the message *)
+Theorem C03_tr_tail_elsewhere : forall ext bl n bm qb path b e K (Q : Z -> mem -> Prop) m gb pb p blk lb,
+  adopts p path = false -> same_str p path = false ->
+  (tail_run ext bl n bm qb path b e K Q m gb pb p blk lb <->
+   forall u1 m1 u2 m2, ext X_snprintf [VPtr bm 0; VInt 128; VPtr G_wmsg 0; VPtr qb 0; VInt (e - b)] m = Ok (u1, m1) -> same_on K m m1 ->
+     ext X_ex_show [VPtr bm 0] m1 = Ok (u2, m2) -> same_on K m1 m2 -> Q 0 m2).
+Proof. exact tail_run_elsewhere. Qed.
+Print Assumptions C03_tr_tail_elsewhere.
+
+(* the address "" (:w, and wq / x through ec_quit): the hypothesis of ecw_run about the translated ex_region is a fact *)
+Theorem C03_tr_region_empty : forall ext m gb pv bl ts blk n x lcb bb be vb ve d fuel,
+  buf0 m gb pv bl ts -> nth_error m bl = Some blk -> nth_error blk L_ln_n = Some (VInt n) -> i32 n ->
+  str_at m lcb [] -> str_at m G_lit_25_1 [37%N] -> cell_at m G_xrow x -> i32 x -> i32 (x + 1) ->
+  nth_error m bb = Some [vb] -> nth_error m be = Some [ve] -> bb <> be ->
+  ~ In bb [G_bufs; bl; G_xrow] -> ~ In be [G_bufs; bl; G_xrow] ->
+  callx ext cprog fuel (S (S (S d))) F_ex_region [VPtr lcb 0; VPtr bb 0; VPtr be 0] m
+  = Ok (VInt (b2z ((x <? 0) || (x >? n))), upd (upd (m ++ [[VPtr lcb 0]]) bb [VInt x]) be [VInt (if x =? n then x else x + 1)]).
+Proof. exact region_empty. Qed.
+Print Assumptions C03_tr_region_empty.
+
+(* non-vacuity: the hypotheses of C03_tr_ec_write hold of a concrete memory, and the translated ec_write RUNS on it (vm_compute):
+   :w with a succeeding lbuf_save (0; mtime := the oracle's 777; saved mark), with a failing one (1; mtime, counter, useq_zero untouched),
+   :w to another path (0; nothing marked) *)
+Example C03_tr_ec_write_nonvacuous :
+  ecw_run (ex_ext (VInt 0)) 6 10 EXM ex_gb PB [102%N] BL ex_lbuf_blk ex_lb 100 2 [119%N] AB [] LCB [] EXK
+    (fun r mf => callx (ex_ext (VInt 0)) cprog 10 10 F_ec_write [VPtr LCB 0; VPtr CB 0; VPtr AB 0; VInt 0] EXM = Ok (VInt r, mf)) /\
+  run_w (VInt 0) [102%N] [119%N] [] [] = Some (0, Some (VPtr PB 0), Some (VInt 777), Some (VInt 6), Some (VInt 4)) /\
+  run_w (VPtr G_lit__0 0) [102%N] [119%N] [] [] = Some (1, Some (VPtr PB 0), Some (VInt 100), Some (VInt 5), Some (VInt 3)) /\
+  run_w (VInt 0) [102%N] [119%N] [103%N] [103%N] = Some (0, Some (VPtr PB 0), Some (VInt 100), Some (VInt 5), Some (VInt 3)).
+Proof. split; [exact tr_ec_write_nonvacuous|]. split; [exact run_w_own|]. split; [exact run_w_fails|exact run_w_other]. Qed.
+End C03_translated_ec_write.
